@@ -537,6 +537,40 @@ theorem embedded_operands (op : BinOp) (a b : Expr) :
   · simp only [Expr.ctrls, List.mem_append]; exact Or.inr hc
   · simpa [Expr.ctrls] using hc
 
+/-- **Several formulas on the same catalogs**: after ANY history of operations — selections on
+this or on other formulas sharing the controllers, `select_expression`, operator calls, direct
+`set_index` / `set_name` / `modify_controller` on the controller objects — from any initial state,
+`f.configure_catalogs(A)` with a valid `A` succeeds and what `f` then shows is `A`: its current
+configuration is `A`, every catalog of `f` shows the member named by `A`, and the formula delegated
+to is the one written out by hand for `A`.  Nothing remembered from an earlier selection can
+stand for the state of the controllers. -/
+theorem select_after_any_history (fs : List Space) (ops : List MOp) (st₀ st₁ : St)
+    (h : runM fs st₀ ops = .ok st₁) (f : Nat) (e : Expr) (sp : Space) (hf : fs[f]? = some sp)
+    (hc : central e = .ok sp) (A : Config) (hv : ValidCfg sp A) :
+    ∃ st₂, runM fs st₀ (ops ++ [.select f A]) = .ok st₂ ∧
+      getConfiguration sp st₂ = .ok A ∧
+      (∀ x ∈ e.cats, getSelection A x.2.1 = some (shownName st₂ x.2.1 x.2.2.names)) ∧
+      (∃ e', e.hand A = some e' ∧ e.select st₂ = some e' ∧ ∀ env, e.evSel st₂ env = e'.ev env) ∧
+      ∀ m, m ∉ sp.map Controller.name → st₂ m = st₁ m := by
+  obtain ⟨hwf, _⟩ := central_ok hc
+  obtain ⟨st₂, h1, h2, _, h4⟩ := setConfiguration_frame hwf st₁ hv
+  refine ⟨st₂, ?_, ?_, ?_, ?_, h4⟩
+  · rw [runM_append, h]
+    simp [runM, stepM, hf, h1]
+  · rw [getConfiguration_ok hwf, h2]
+  · intro x hx
+    exact (select_sync e sp hc A hv st₁ st₂ h1 x hx).2
+  · obtain ⟨e', a1, a2, _, a4⟩ := select_equals_handwritten e sp hc A hv st₁ st₂ h1
+    exact ⟨e', a1, a2, a4⟩
+
+/-- … and a selection on one formula leaves the controllers that only other formulas use where
+they were, so the part of another formula's view that is not shared survives it. -/
+theorem select_touches_own_controllers_only (sp : Space) (hwf : SpaceWF sp) (st : St) (A : Config)
+    (hv : ValidCfg sp A) :
+    ∃ st', setConfiguration sp st A = .ok st' ∧ ∀ m, m ∉ sp.map Controller.name → st' m = st m := by
+  obtain ⟨st', h1, _, _, h4⟩ := setConfiguration_frame hwf st hv
+  exact ⟨st', h1, h4⟩
+
 /-! non-vacuity of the round-3 statements -/
 
 def decl₀ : List Controller := [⟨nm "k", [nm "lin", nm "quad"]⟩]
@@ -571,6 +605,14 @@ example : (match e₀ with | .bin _ a b => ((central a).map (fun sp => numberOfC
 
 example : restrictCfg [⟨nm "k", [nm "lin", nm "quad"]⟩] [(nm "c3", nm "v"), (nm "k", nm "quad")]
     = [(nm "k", nm "quad")] := by decide
+
+/-- f = e₀ (controllers c3, k), g = a formula on the catalog c2 alone (controller k): f selects
+(u, lin), g selects quad, the controller c3 is moved directly, f selects (u, lin) again -/
+example : (runM [sp₀, [⟨nm "k", [nm "lin", nm "quad"]⟩]] St.init
+      [.select 0 [(nm "c3", nm "u"), (nm "k", nm "lin")], .select 1 [(nm "k", nm "quad")],
+       .directIndex ⟨nm "c3", [nm "u", nm "v"]⟩ 1,
+       .select 0 [(nm "c3", nm "u"), (nm "k", nm "lin")]]).map (fun st => currentSels sp₀ st)
+    = .ok [(nm "c3", nm "u"), (nm "k", nm "lin")] := by decide
 
 /-- renaming `b1` and `x` through the catalogs while (c3:u, k:lin) is selected -/
 example : ((e₀.mapSel St.init (renameMap [nm "b1", nm "x"] (some (nm "p_")) none)).select St.init).map Expr.render
